@@ -437,7 +437,9 @@ func (root *Root) replaceArgVars(vars map[string]interface{}, v interface{}, at 
 	val = v
 	switch tv := val.(type) {
 	case Var:
-		val = vars[string(tv)]
+		// A copy, coercion changes lists and objects in place and the value
+		// belongs to the caller or is the default of the parsed request.
+		val = copyValue(vars[string(tv)])
 		if at != nil {
 			if ic, _ := at.(InCoercer); ic != nil { // validated in SDL validation
 				if val, err = ic.CoerceIn(val); err != nil {
@@ -447,15 +449,18 @@ func (root *Root) replaceArgVars(vars map[string]interface{}, v interface{}, at 
 		}
 	case map[string]interface{}:
 		if it, _ := BaseType(at).(*Input); it != nil {
+			// The literal is part of the parsed request and stays as
+			// written, the values are placed in a new object.
+			obj := make(map[string]interface{}, len(tv))
 			for k, v := range tv {
 				var vt Type
 				if f := it.fields.get(k); f != nil {
 					vt = f.Type
 				}
-				tv[k], ea2 = root.replaceArgVars(vars, v, vt)
+				obj[k], ea2 = root.replaceArgVars(vars, v, vt)
 				ea = append(ea, ea2...)
 			}
-			if val, err = it.CoerceIn(val); err != nil {
+			if val, err = it.CoerceIn(obj); err != nil {
 				ea = append(ea, resWarnp(nil, "%s", err))
 			}
 		}
@@ -464,10 +469,12 @@ func (root *Root) replaceArgVars(vars map[string]interface{}, v interface{}, at 
 		if lt, _ := at.(*List); lt != nil {
 			mt = lt.Base
 		}
+		list := make([]interface{}, len(tv))
 		for i, v := range tv {
-			tv[i], ea2 = root.replaceArgVars(vars, v, mt)
+			list[i], ea2 = root.replaceArgVars(vars, v, mt)
 			ea = append(ea, ea2...)
 		}
+		val = list
 	case Symbol:
 		bt := BaseType(at)
 		if et, _ := bt.(*Enum); et != nil {
